@@ -886,6 +886,11 @@ class ExcelCompiler:
                 # CSE Array Formula
                 data = self.eval(cell_range, cell_range.address)
                 if list_like(data) and list_like(data[0]) and any(
+                        d is None for d in flatten(data)):
+                    # an empty element shows as 0, like any formula result
+                    data = tuple(tuple(0 if d is None else d for d in row)
+                                 for row in data)
+                if list_like(data) and list_like(data[0]) and any(
                         is_address(d) for d in flatten(data)):
                     # the formula produced a reference (OFFSET, INDIRECT),
                     # the range shows the cells referred to, fitted like any
